@@ -47,6 +47,14 @@ static secp256k1_scalar verif_sc(void) {
     __CPROVER_assume(!secp256k1_scalar_check_overflow(&r));
     return r;
 }
+/* cheap modular helpers (conditional subtraction instead of a 320-bit divider circuit); valid for the stated operand ranges */
+static bvw redN(bvw v) { return v >= verif_N() ? v - verif_N() : v; }                 /* v < 2n (e.g. any 256-bit value) */
+static bvw redP(bvw v) { return v >= verif_P() ? v - verif_P() : v; }                 /* v < 2p */
+static bvw addN(bvw a, bvw b) { return redN(a + b); }                                  /* a, b < n */
+static bvw negN(bvw a) { return a == 0 ? 0 : verif_N() - a; }                          /* a < n */
+static bvw negP(bvw a) { return a == 0 ? 0 : verif_P() - a; }                          /* a < p */
+/* canonical value of a field element through the library's own (linear, bit-level) normalisation */
+static bvw fe_cval(const secp256k1_fe *a) { secp256k1_fe t = *a; secp256k1_fe_normalize(&t); return fe_val(&t); }
 #endif
 static bvw be_val(const unsigned char *b, int n) { bvw v = 0; int i; for (i = 0; i < n; i++) v = (v << 8) | b[i]; return v; }
 static int verif_allzero(const void *p, size_t n) { const unsigned char *b = (const unsigned char *)p; size_t i; unsigned char a = 0; for (i = 0; i < n; i++) a |= b[i]; return a == 0; }
